@@ -1,7 +1,10 @@
 //! Reference models. They never call Kolibrie code.
+pub mod expiry_fixpoint;
 
 /// Self-tests of the reference models against hand-computed micro cases.
 pub fn selftest() -> Vec<String> {
-    let errs = Vec::new();
+    #[allow(unused_mut)]
+    let mut errs = Vec::new();
+    errs.extend(expiry_fixpoint::selftest());
     errs
 }
